@@ -37,6 +37,10 @@ add("C13","E1 enum","exploration",
     "Every signed add/sub/neg/mul form (checked, overflowing, wrapping, operators, Wrapping, Checked; Int x Int and Int x Uint, equal and mixed widths, split/widening/checked, squares), sign decomposition and reconstruction (incl. negative zero and |MIN|), resize / From<&Int>, from_i8..i128 over the complete pair products of the signed alphabet (MIN, MIN+1, -1, 0, 1, MAX, +-2^j, +-2^j-1 for every j, L9/L5 patterns) is compared with BigInt arithmetic: wrapping = result mod 2^BITS, overflow reported iff the result leaves [MIN, MAX].",
     ASSUME, "bounded-exhaustive enumeration of operand shapes x forms on the real code against a BigInt reference model", "DESIGN.md §3.C13")
 
+add("C14","E1 enum","exploration",
+    "Every signed division flavour (truncating, flooring, normalized; ct and vartime; signed and unsigned divisors; equal and mixed widths; checked, operators, assigning, Wrapping, DivVartime) over complete (n, d) products of the signed alphabet in all four sign combinations plus NEAR(q*d) dividends; each returned (q, r) is compared component-wise with BigInt truncating / flooring division (which implies n = q*d + r, |r| < |d| and the sign convention); quotient none exactly for d = 0 or MIN / -1.",
+    ASSUME, "bounded-exhaustive enumeration of operand shapes x forms on the real code against a BigInt reference model", "DESIGN.md §3.C14")
+
 NOT_YET = {}
 ALL = [f"C{i:02d}" for i in range(1,21)]
 import os, sys
